@@ -63,7 +63,7 @@ PROPS = {
         "lean": "Originium.Props.C02",
         "suites": ["key", "db"],
         "skeleton_funcs": DB_SKEL,
-        "trusted_base": DB_TB + ["recovery rebuilds handles from files: C11_table_roundtrip; wal replay after a clean Close is empty (the directory listing is checked by the suite)"],
+        "trusted_base": DB_TB + ["recovery rebuilds handles from files: C11_table_roundtrip; wal replay after a clean Close is empty (the directory listing is checked by the suite)"] + ["extract/gotrans.go (DESIGN section 14) regenerates GenLevel.maxLevelIdx (levelManager.maxLevelIdx) from /repo on every run; LevelTie.maxLevelIdx_fresh (the next table name of a level is fresh) is part of this property's module; container/list is a list"],
         "assumptions": [],
         "explanation": "Close = drain + flush as model steps (always enabled), Open recomputes nextTs from stored versions = the old counter (maxTs_present)",
     },
@@ -71,7 +71,7 @@ PROPS = {
         "lean": "Originium.Props.C03",
         "suites": ["key", "crash"],
         "skeleton_funcs": FS_SKEL,
-        "trusted_base": DB_TB + FS_TB,
+        "trusted_base": DB_TB + FS_TB + ["extract/gotrans.go (DESIGN section 14) regenerates GenLevel.maxLevelIdx (levelManager.maxLevelIdx) from /repo on every run; LevelTie.maxLevelIdx_fresh (the next table name of a level is fresh) is part of this property's module; container/list is a list"],
         "assumptions": ["process-crash model: every completed file-system call persists; one hook call = one operation = one crash point; a wal batch is one write call",
                         "which operations the engine emits: the program model Prog (foreground: commit/rotate/Close/Open with wal replay; flusher: flush/compaction; all interleavings, crash anywhere) is proved to emit only accepted events (Prog.never_rejected); that the code is this program is tied dynamically (every recorded trace, recoveries of crash images included, must be a trace of Prog.act) and by the re-extracted sync/fs skeleton",
                         "the model names tables freshly and lets a wal id grow with creation time; the replay order of older wals is whatever Open's directory listing says"],
